@@ -411,6 +411,73 @@ def w20_config_overlay_on_tomlkit_containers(tmp):
     return None
 
 
+def w22_sqlite_bulk_partial_age_flush(tmp):
+    import sqlite3
+    import aw_datastore.storages.sqlite as sq
+    real = sq.datetime
+
+    class FakeDT(real):
+        offset = timedelta(0)
+
+        @classmethod
+        def now(cls, tz=None):
+            return real.now(tz) + cls.offset
+    sq.datetime = FakeDT
+    try:
+        path = os.path.join(tmp, "w.db")
+
+        def committed():
+            c2 = sqlite3.connect(path)
+            try:
+                return sorted(json_n for (json_n,) in c2.execute("SELECT datastr FROM events"))
+            finally:
+                c2.close()
+        # (a) the storage object: a list of id-carrying events, more than 10 s after the last flush
+        s = _sqlite(tmp)
+        _mk(s, "b")
+        s.insert_many("b", [_ev(i, 1, {"n": i}) for i in range(3)])
+        got = s.get_events("b", -1)  # a read flushes
+        FakeDT.offset = timedelta(seconds=30)
+        for e in got:
+            e.data = {"n": e.data["n"] + 100}
+        s.insert_many("b", got)
+        seen = committed()
+        want = sorted('{"n": %d}' % (100 + i) for i in range(3))
+        if seen != want or s.num_uncommitted_statements != 0:
+            return (f"insert_many of 3 id-carrying events issued 30 s after the last flush returned with "
+                    f"{sum(1 for x in seen if x in want)} of 3 rewrites committed "
+                    f"(num_uncommitted_statements = {s.num_uncommitted_statements})")
+        # (b) ids and id-less events in one list, 30 s later again
+        FakeDT.offset = timedelta(seconds=60)
+        s.insert_many("b", [_ev(0, 1, {"n": 200}, eid=got[0].id), _ev(9, 1, {"n": 201}), _ev(10, 1, {"n": 202})])
+        seen = committed()
+        missing = [x for x in ('{"n": 200}', '{"n": 201}', '{"n": 202}') if x not in seen]
+        if missing:
+            return (f"insert_many of 1 id-carrying + 2 new events issued 30 s after the last flush returned with "
+                    f"{len(missing)} of its 3 writes uncommitted")
+        s.conn.close()
+        # (c) the same through the public layer: Bucket.insert(list)
+        from aw_datastore import Datastore
+        path = os.path.join(tmp, "w2.db")
+        ds = Datastore(sq.SqliteStorage, testing=True, filepath=path)
+        ds.create_bucket("b", "t", "c", "h", created=T0)
+        bk = ds["b"]
+        bk.insert([_ev(i, 1, {"n": i}) for i in range(3)])
+        got = bk.get(-1)
+        FakeDT.offset = timedelta(seconds=90)
+        for e in got:
+            e.data = {"n": e.data["n"] + 100}
+        bk.insert(got)
+        seen = committed()
+        if seen != want:
+            return (f"Bucket.insert of a list of 3 id-carrying events issued 30 s after the last flush returned with "
+                    f"{sum(1 for x in seen if x in want)} of 3 rewrites committed")
+        ds.storage_strategy.conn.close()
+    finally:
+        sq.datetime = real
+    return None
+
+
 ALL = [v for k, v in sorted(globals().items()) if k.startswith("w") and k[1:3].isdigit()]
 
 if __name__ == "__main__":
